@@ -14,5 +14,7 @@ MC_None == {}
 BandVals == {0, 63, 64, 4095, 4096, 5000, 8191, 8192, 524288, 600000, 1048575, 1048576,
              67108864, 100000000, 134217727, 134217728, MAXINT}
 MC_Bands == {IntItem(v) : v \in BandVals} \cup {IntItem(Flip(v)) : v \in BandVals}
-MC_Fillers == {RawItem(<<>>), RawItem(<<9>>), StrItem(<<97>>)}
+\* (the data filler does not fit capacities 1..5 although its length prefix does: the integer after it
+\* is then written by a caller that carries on after a refused write)
+MC_Fillers == {RawItem(<<>>), RawItem(<<9>>), StrItem(<<97>>), DataItem(<<1, 2, 3, 4, 5>>)}
 =============================================================================
